@@ -3,7 +3,7 @@
    Model: Model/Http.v (generator side: http_options, defaults table; emitted side: run) over the abstract request
    valuations of Model/HttpValues.v.  [transcode] is the contract of google.api_core.path_template.transcode. *)
 From Coq Require Import Permutation.
-From GV Require Import Base.Str Gen.Kw Model.Reserved Model.Case Model.HttpValues Model.Http Proofs.Http.
+From GV Require Import Base.Str Gen.Kw Model.Reserved Model.Case Model.HttpValues Model.Http Proofs.Http Proofs.HttpUri.
 Local Open Scope list_scope.
 
 (* no loss, no duplication: for every request valuation and every list of bindings, when a binding applies the
@@ -104,13 +104,20 @@ Theorem C04_defaults_duplicate_additional_refuted :
 Proof. exact defaults_duplicate_additional_refuted. Qed.
 Print Assumptions C04_defaults_duplicate_additional_refuted.
 
-Theorem C04_defaults_duplicate_reserved_refuted :
-  exists q, run false kw_method [sleaf [F "class"] "items/c"] = Sent "get" "/v1/items/c" q None /\
-    In ("class", "")%string q /\
-    (forall t, transcode (attrs_of kw_method) (http_options kw_method) [sleaf [F "class"] "items/c"] = Some t ->
-               t_path t = [sleaf [F "class"] "items/c"]).
-Proof. exact defaults_duplicate_reserved_refuted. Qed.
-Print Assumptions C04_defaults_duplicate_reserved_refuted.
+(* formerly C04_defaults_duplicate_reserved_refuted; fixed in /repo by c409a6e.  A field named by the first rule as a
+   path variable or as its body (reserved word or not) does not enter the defaults table, hence is not sent again *)
+Theorem C04_defaults_exclude_bound : forall m verb u f,
+  r_pat (m_rule m) = PVerb verb u ->
+  In f (filter (fun f => f_required f && mem_str (field_attr (f_name f)) (query_params m)) (m_fields m)) ->
+  ~ In (f_name f) (path_params u ++ (if is_empty (r_body (m_rule m)) then [] else [r_body (m_rule m)])).
+Proof. exact defaults_exclude_bound. Qed.
+Print Assumptions C04_defaults_exclude_bound.
+
+Example C04_reserved_path_variable_not_duplicated :
+  run false kw_method [sleaf [F "class"] "items/c"] = Sent "get" "/v1/items/c" [] None /\
+  defaults_table kw_method = Some [].
+Proof. exact reserved_path_variable_not_duplicated. Qed.
+Print Assumptions C04_reserved_path_variable_not_duplicated.
 
 Theorem C04_body_first_rule_only_refuted :
   run false ex_method [sleaf [F "class"] "cls/c1"] = Fail BodyKeyError /\
@@ -170,6 +177,48 @@ Print Assumptions C04_wire_names_original.
 Theorem C04_json_name_suffix_irrelevant : forall n, to_json_name (field_attr n) = to_json_name n.
 Proof. exact json_name_suffix_irrelevant. Qed.
 Print Assumptions C04_json_name_suffix_irrelevant.
+
+(* the URI half: the emitted uri string tokenizes to the converted tokens (printer/tokenizer round trip), the converted
+   dotted name splits into the suffixed components (split/join round trip), so the URL of a request that is sent is
+   the ORIGINAL template of a declared rule with every variable replaced by the value found under the ORIGINAL proto
+   path; no (suffixed) name reaches the wire.  Hypotheses are decidable and evaluated on every generated uri/request:
+   the converted tokens are printable, and no name is a reserved word followed by "_" (C04_ex_suffix_clash) *)
+Theorem C04_uri_round_trip : forall u,
+  printable (map fix_tok (utoks u)) = true -> utoks (convert_uri u) = map fix_tok (utoks u).
+Proof. exact utoks_convert_uri. Qed.
+Print Assumptions C04_uri_round_trip.
+
+Theorem C04_dotted_fix_path : forall n, dotted (fix_path n) = map field_attr (dotted n).
+Proof. exact dotted_fix_path. Qed.
+Print Assumptions C04_dotted_fix_path.
+
+Theorem C04_uri_names_proto : forall u r,
+  printable (map fix_tok (utoks u)) = true -> names_clash_free (utoks u) = true -> req_clash_free r = true ->
+  expand (utoks (convert_uri u)) r = expand_proto (utoks u) r.
+Proof. exact uri_names_proto_l. Qed.
+Print Assumptions C04_uri_names_proto.
+
+Theorem C04_wire_names_uri : forall numeric m r v u q bd,
+  run numeric m r = Sent v u q bd ->
+  exists ru verb uri, In ru (m_rule m :: m_more m) /\ r_pat ru = PVerb verb uri /\ v = verb /\
+    (printable (map fix_tok (utoks uri)) = true -> names_clash_free (utoks uri) = true -> req_clash_free r = true ->
+     u = expand_proto (utoks uri) r).
+Proof. exact wire_names_uri_l. Qed.
+Print Assumptions C04_wire_names_uri.
+
+Example C04_ex_uri_hyps :
+  printable (map fix_tok (utoks "/v1.1/{name=items/*}/{sub.class=things/*}:one")) = true /\
+  names_clash_free (utoks "/v1.1/{name=items/*}/{sub.class=things/*}:one") = true /\
+  req_clash_free [mkLeaf [F "name"] (VS "items/i1") false; mkLeaf [F "sub"; F "class"] (VS "things/t1") false] = true /\
+  expand (utoks (convert_uri "/v1.1/{name=items/*}/{sub.class=things/*}:one"))
+         [mkLeaf [F "name"] (VS "items/i1") false; mkLeaf [F "sub"; F "class"] (VS "things/t1") false]
+  = "/v1.1/items/i1/things/t1:one"%string.
+Proof. exact ex_uri_hyps. Qed.
+Print Assumptions C04_ex_uri_hyps.
+
+Example C04_ex_suffix_clash : field_attr "class" = field_attr "class_" /\ suffix_clash "class_" = true.
+Proof. exact ex_suffix_clash. Qed.
+Print Assumptions C04_ex_suffix_clash.
 
 (* methods without a binding refuse the REST transport, and only those (and client-streaming ones) do *)
 Theorem C04_no_binding_not_implemented : forall numeric m r,
